@@ -28,7 +28,7 @@ ASSUMPTIONS = [
     'across transpose',
 ]
 ANCHORS = ['Table.sort_order', 'Table.sort', 'Table.align_to', 'Table.transpose', 'Table.update_ids', 'Table.copy', 'natsort']
-REQUIRED = ['natural_order_checked', 'natsort_probes', 'natsort_decimal_checked', 'result_metadata_edits', 'sort_order', 'sort', 'align_to', 'transpose', 'copy',
+REQUIRED = ['sorter_result_changed_by_caller', 'natural_order_checked', 'natsort_probes', 'natsort_decimal_checked', 'result_metadata_edits', 'sort_order', 'sort', 'align_to', 'transpose', 'copy',
             'update_ids', 'update_ids_refused', 'align_refused',
             'inverse_roundtrips', 'layout_csc_seen', 'layout_unsorted_seen',
             'objdtype_ids']
@@ -229,8 +229,33 @@ def run_random(ctx, index):
                                                              desc))
             order = calls[1]
         else:
+            first = None
+            if r.random() < .3:
+                # user code asks the library's sorter for the order, turns
+                # the list it got (its own list now) into the descending
+                # order and reorders with it; the default sort afterwards
+                # still is the ascending one
+                from biom.util import natsort
+                mine = natsort(t.ids(axis=axis))
+                first = [str(i) for i in mine]
+                mine.reverse()
+                desc['descending_first'] = True
+                down = t.sort_order(mine, axis=axis)
+                if [str(i) for i in down.ids(axis=axis)] != first[::-1]:
+                    raise Violation('C06/order', 'sort_order with the '
+                                    'reversed natural order %r gave %r; '
+                                    'case=%r' % (first[::-1], list(
+                                        down.ids(axis=axis)), desc))
+                oracles.check_against_spec(down, permuted(spec, first[::-1],
+                                                          axis),
+                                           'C06/sort_order', desc)
+                ctx.count('sorter_result_changed_by_caller')
             res = t.sort(axis=axis)
             order = [str(i) for i in res.ids(axis=axis)]
+            if first is not None and order != first:
+                raise Violation('C06/natsort-order', 'default sort gave %r, '
+                                'the sorter had said %r for the same ids; '
+                                'case=%r' % (order, first, desc))
             if sorted(order) != sorted(ids):
                 raise Violation('C06/sort-not-permutation', 'sort produced '
                                 'ids %r from %r; case=%r' % (order, ids,
